@@ -137,7 +137,7 @@ theorem log10_main (c : Ctx) (hc : c.WF) (x : Dec) (tape r' : Tape) (o : Out)
           have hw' := log10Nc'_wide c hP1 (by omega)
           have hm' : (log10Mc c).mode = .halfEven := rfl
           have hprec' : (log10Mc c).prec = c.prec := rfl
-          have hdl : Delivered (goError c.traps (cInexact ||| (mulOp (log10Mc c) l.d (invLn10At (c.prec + 2))).fl |||
+          have hdl : Delivered (goError c.traps ((cInexact ||| cRounded) ||| (mulOp (log10Mc c) l.d (invLn10At (c.prec + 2))).fl |||
               (ctxRound c (mulOp (log10Mc c) l.d (invLn10At (c.prec + 2))).d).2)) := by
             rcases hd with hd | ⟨hd, _⟩
             · exact Or.inl hd
